@@ -8,7 +8,7 @@ from harness.c01 import signature
 
 def impl(case):
     from harness import cls
-    out, c, _ = cls.classify(case["gens"])
+    out, c, _ = cls.classify(case["gens"], routes=case.get("routes"))
     # repetition inside one process: same object, fresh classify(), fresh object
     again = [c.get_algebra(), c.classify().get_algebra(), cls.classify(case["gens"])[0]["algebra"]]
     out["again"] = again
@@ -53,7 +53,7 @@ def main():
     ck = Check("C03")
     if ck.replay:
         rp = json.load(open(ck.replay)); ck.build()
-        res = ck.impl("c03", [{"gens": rp["gens"]}, {"gens": rp["transformed"]}])
+        res = ck.impl("c03", [{"gens": rp["gens"]}, dict({"gens": rp["transformed"]}, **({"routes": rp["routes"]} if rp.get("routes") else {}))])
         print(rp["transformation"], "| base:", res[0].get("algebra"), "| transformed:", res[1].get("algebra"))
         return
     if not ck.build():
@@ -67,7 +67,16 @@ def main():
         jobs.append((i, "identity", n, g))
         for name, n2, g2 in transforms(ck.rng, n, g):
             jobs.append((i, name, n2, g2))
-    res = ck.impl("c03", [{"gens": g} for _, _, _, g in jobs], per_case_s=180)
+    # the same strings held as objects reached through other public routes (edited in place after use, inc, copies),
+    # the collection itself filled by append/insert: still the same algebra
+    from harness.cls import STRING_ROUTES
+    routes = {}
+    for i, (kind, n, g) in enumerate(base):
+        if n <= 12:
+            for tag in ("objects", "objects-built"):
+                routes[len(jobs)] = [ck.rng.choice(STRING_ROUTES[2:]) for _ in range(3)] + (["@build"] if tag == "objects-built" else [])
+                jobs.append((i, tag, n, g))
+    res = ck.impl("c03", [dict({"gens": g}, **({"routes": routes[j]} if j in routes else {})) for j, (_, _, _, g) in enumerate(jobs)], per_case_s=180)
     # the true algebra is invariant (Coq: C03_*); for n<=6 the oracle confirms it on these very inputs
     small = [j for j, (i, name, n, g) in enumerate(jobs) if n <= 6]
     inv = dict(zip(small, ck.oracle(["lieinv %d %s" % (jobs[j][2], " ".join(jobs[j][3])) for j in small])))
@@ -100,7 +109,7 @@ def main():
         if norm(r["algebra"]) != norm(r0["algebra"]):
             key = signature(r["morphs"]) or signature(r0["morphs"])
             ck.fail(key, "%s changes the reported algebra: %s -> %s on %s -> %s" % (name, r0["algebra"], r["algebra"], g0, g),
-                    {"n": n0, "gens": g0, "transformation": name, "transformed": g, "base_answer": r0["algebra"], "transformed_answer": r["algebra"]})
+                    {"n": n0, "gens": g0, "transformation": name, "transformed": g, "routes": routes.get(j), "base_answer": r0["algebra"], "transformed_answer": r["algebra"]})
     # processes and hash seeds: fresh worker processes with different PYTHONHASHSEED
     sample = [b for b in base if b[1] <= 12][: (120 if ck.quick else 800)]
     seeds = ["0", "1", "2", "random"]
